@@ -48,7 +48,7 @@ func TestCheck(t *testing.T) {
 		}
 	}()
 	ctx := context.Background()
-	n := int64(cfg.Pick(32, 64))
+	n := int64(cfg.Pick(48, 64))
 	rep.Require("concurrent_calls", 500)
 	rep.Cases(n, func(idx int64, rng *mon.Rand) {
 		switch idx % 4 {
